@@ -10,7 +10,7 @@ from props.base import Context  # noqa: F401
 from props.progcases import ProgramSpec
 
 PID = 'C01'
-EXTRA_MODULES = ['DiffxVerif.Properties.C01Run', 'DiffxVerif.Properties.C01Faithful', 'DiffxVerif.Properties.C01Concrete', 'DiffxVerif.Properties.C01Closed']
+EXTRA_MODULES = ['DiffxVerif.Properties.C01Run', 'DiffxVerif.Properties.C01Faithful', 'DiffxVerif.Properties.C01Concrete', 'DiffxVerif.Properties.C01Closed', 'DiffxVerif.Properties.C01ClosedDom']
 TIE_MODULES = ['DiffxVerif.Tie.Sections']
 NEEDS = ['sections', 'options', 'text']
 ASSUMPTIONS = [
